@@ -24,3 +24,17 @@ claim("C12", "other",
       "unit pairs limited to the family listed in props/c12.py; int magnitudes only on exact pairs; "
       "ln/exp uninterpreted with instance axioms.",
       "shadow-symbolic execution of real code + z3 (LRA/NRA) per path", "DESIGN.md 4/C12", "symnum")
+
+claim("C04", "other",
+      "For every enumerated (source, target) pair the real Quantity.in_unit runs once on a solver-backed "
+      "magnitude; z3 confirms the extracted affine map c*m+d for all m and decides "
+      "forall m |c*m+d - rho*m| <= tol*|rho*m| against unit sizes solved independently from the "
+      "recorded declarations (exact Fractions). Families: all ordered pairs of named offset-free units "
+      "(complete), a fixed compound family (<=3 factors, |e|<=3, registered prefixes, degree bound per "
+      "tier), and a synthetic exactly-consistent system with redundant definition paths at tolerance 0.",
+      "Planner control flow is concrete (depends on unit objects only; every run is checked to have one "
+      "path); exact real arithmetic over the binary constants in _ratios; pairs downstream of "
+      "declarations C09 finds inconsistent are accepted under any one consistent reading and counted "
+      "as ambiguous_by_C09; compound family is a bounded sample of the property's space.",
+      "shadow-symbolic execution of real in_unit + z3 LRA per pair vs declaration oracle",
+      "DESIGN.md 4/C04", "symnum")
